@@ -8,6 +8,9 @@ import (
 	"errors"
 	"fmt"
 	"math/rand"
+	"os"
+	"os/exec"
+	"sort"
 	"strings"
 	"sync"
 	"time"
@@ -29,12 +32,37 @@ func concWorkload(seed int64) string {
 	var out []string
 	b := newSimBMC([]byte(fixedPass), nil)
 	busy := 0
+	// what this BMC advertises through Get Channel Cipher Suites (standard records: C0 id, auth, 40|integ, 80|conf)
+	advertised := [][]byte{{3}, {17, 3}, {3, 8}, {17}, {8, 3, 17}, {3, 17}, {8}}[rng.Intn(7)]
+	var suiteData []byte
+	for _, id := range advertised {
+		a := concSuiteAlgs[id]
+		suiteData = append(suiteData, 0xC0, id, a[0], 0x40|a[1], 0x80|a[2])
+	}
+	// and its SDR repository
+	gg := &genCtx{rng: rng, tier: "quick", stat: map[string]int{}}
+	dev := &c14Device{recs: c14Repo(gg, 1+rng.Intn(4), rng.Intn(2) == 0, 70), maxReserves: 1000, cancel: func() {}}
 	b.dispatcher = func(netfn, cmd byte, data []byte) []byte {
 		if busy > 0 {
 			busy--
 			return ipmiRsp(netfn, cmd, 0xC0, nil)
 		}
 		switch {
+		case netfn == 0x06 && cmd == 0x54:
+			if len(data) != 3 {
+				return ipmiRsp(netfn, cmd, 0xC7, nil)
+			}
+			lo := int(data[2]&0x3f) * 16
+			if lo > len(suiteData) {
+				lo = len(suiteData)
+			}
+			hi := lo + 16
+			if hi > len(suiteData) {
+				hi = len(suiteData)
+			}
+			return ipmiRsp(netfn, cmd, 0, append([]byte{0x01}, suiteData[lo:hi]...))
+		case netfn == 0x0a:
+			return dev.dispatch(netfn, cmd, data)
 		case netfn == 0x06 && cmd == 0x01:
 			return ipmiRsp(netfn, cmd, 0, []byte{0x20, 0x81, 0x02, 0x15, 0x02, 0xbf, 0x57, 0x01, 0x00, 0x34, 0x12})
 		case netfn == 0x06 && cmd == 0x3c:
@@ -56,6 +84,8 @@ func concWorkload(seed int64) string {
 			reqLog = append(reqLog, fmt.Sprintf("%d:%02x/%02x:%x", r.seq, r.netFn, r.cmd, r.data))
 		} else if m, _ := parseSessionless(p); m != nil {
 			reqLog = append(reqLog, fmt.Sprintf("sl:%02x/%02x", m[1]>>2, m[5]))
+		} else if len(p) >= 48 && p[5] == 0x10 {
+			reqLog = append(reqLog, fmt.Sprintf("open:%x/%x/%x", p[16+12], p[16+20], p[16+28]))
 		} else {
 			reqLog = append(reqLog, fmt.Sprintf("setup:%02x", p[5]))
 		}
@@ -75,9 +105,19 @@ func concWorkload(seed int64) string {
 		out = append(out, "guid=err")
 	}
 	for round := 0; round < 1+rng.Intn(2); round++ {
+		// one explicit suite (no discovery), the library's defaults (17 then 3, discovery), or a preference list (discovery)
+		var want []ipmi.CipherSuite
+		switch rng.Intn(5) {
+		case 0, 1:
+			want = []ipmi.CipherSuite{suites[rng.Intn(len(suites))]}
+		case 2, 3:
+			want = nil
+		default:
+			want = [][]ipmi.CipherSuite{{suites[1], suites[0], suites[2]}, {suites[2], suites[1]}, {suites[0], suites[1]}, {suites[2], suites[0]}}[rng.Intn(4)]
+		}
 		sess, err := t.NewV2Session(ctx, &bmc.V2SessionOpts{
 			SessionOpts:  bmc.SessionOpts{Username: fixedUser, Password: []byte(fixedPass), MaxPrivilegeLevel: ipmi.PrivilegeLevelAdministrator},
-			CipherSuites: []ipmi.CipherSuite{suites[rng.Intn(len(suites))]},
+			CipherSuites: want,
 		})
 		if err != nil {
 			out = append(out, "open=err")
@@ -85,7 +125,26 @@ func concWorkload(seed int64) string {
 		}
 		out = append(out, fmt.Sprintf("open=%d/%d", sess.AuthenticationAlgorithm, sess.IntegrityAlgorithm))
 		for k := 0; k < 3+rng.Intn(6); k++ {
-			switch rng.Intn(3) {
+			switch rng.Intn(5) {
+			case 3:
+				repo, err := bmc.RetrieveSDRRepository(ctx, sess)
+				if err != nil {
+					out = append(out, "sdr=err")
+				} else {
+					var ids []int
+					for id := range repo {
+						ids = append(ids, int(id))
+					}
+					sort.Ints(ids)
+					var parts []string
+					for _, id := range ids {
+						parts = append(parts, fmt.Sprintf("%d:%x:%d:%d", id, repo[ipmi.RecordID(id)].Identity, repo[ipmi.RecordID(id)].M, repo[ipmi.RecordID(id)].B))
+					}
+					out = append(out, "sdr="+strings.Join(parts, ";"))
+				}
+			case 4:
+				suites, err := bmc.RetrieveSupportedCipherSuites(ctx, t)
+				out = append(out, fmt.Sprintf("suites=%v/%v", suites, err != nil))
 			case 0:
 				mu.Lock()
 				busy = rng.Intn(3)
@@ -119,6 +178,19 @@ func concWorkload(seed int64) string {
 	return strings.Join(out, ",") + " | " + strings.Join(reqLog, ",")
 }
 
+var concSuiteAlgs = map[byte][3]byte{3: {1, 1, 1}, 17: {3, 4, 1}, 8: {2, 2, 1}}
+
+// concSolo runs one workload in a fresh process (`harness concsolo <seed>`) and returns what it printed
+func concSolo(seed int64) string {
+	cmd := exec.Command(os.Args[0], "concsolo", fmt.Sprint(seed))
+	cmd.Env = append(os.Environ(), "GORACE=atexit_sleep_ms=0") // a race-detector build otherwise sleeps 1 s at exit
+	out, err := cmd.Output()
+	if err != nil {
+		return "solo run failed: " + err.Error()
+	}
+	return strings.TrimRight(string(out), "\n")
+}
+
 // conc <N> <seed>
 func execConc(a []string) (string, string) {
 	n, seed := atoi(a[0]), int64(atoi(a[1]))
@@ -133,8 +205,20 @@ func execConc(a []string) (string, string) {
 	}
 	wg.Wait()
 	same := true
+	solos := make([]string, n)
 	for i := 0; i < n; i++ {
-		if solo := concWorkload(seed*1000 + int64(i)); solo != par[i] {
+		wg.Add(1)
+		go func(i int) {
+			defer wg.Done()
+			solos[i] = concSolo(seed*1000 + int64(i))
+		}(i)
+	}
+	wg.Wait()
+	for i := 0; i < n; i++ {
+		// the reference is the same workload run ALONE IN A FRESH PROCESS: state shared between connections (package-level
+		// variables reached through an alias, caches, ...) that an earlier or concurrent connection has modified would
+		// otherwise be the same in both runs and go unnoticed
+		if solo := solos[i]; solo != par[i] {
 			same = false
 			return "race=0 same=0", fmt.Sprintf("goroutine %d of %d (seed %d): results or BMC log differ from the same workload run alone:\n concurrent: %s\n alone:      %s", i, n, seed, par[i], solo)
 		}
